@@ -13,7 +13,11 @@ RULE = ("seeded op sequences (Step loops, Solve, repeated Solve, limits (re)set 
 ASSUMPTIONS = ["the model's iteration count is the number of completed _Step executions, its evaluation count the number of real calls of the scripted cost",
                "default (None) limits are taken as mystic resolved them; explicit limits are modelled independently",
                "a backward wall-clock step may legitimately delay TimeLimits(system=None); the oracle uses the reading the condition saw",
-               "an interrupt that arrives while no handler is installed is a KeyboardInterrupt and ends the plan"]
+               "an interrupt that arrives while no handler is installed is a KeyboardInterrupt and ends the plan",
+               "GradientNormTolerance differentiates the raw cost from inside the termination test: those calls are answered purely and are not "
+               "counted as evaluations (mystic does not count them either)",
+               "'Solve always returns' includes: a legal Set*/Step/Solve sequence does not die of an internal error (TypeError, AttributeError, "
+               "IndexError, KeyError, NameError, UnboundLocalError, AssertionError, RecursionError); ValueError is mystic's rejection of a setting"]
 REAL = ["mystic solvers, Step/Solve/Terminated, termination conditions, _signal.Handler"]
 STUB = ["cost/constraint/penalty/callback peers", "time.time/perf_counter/process_time (SimClock)",
         "signal.signal + input() (SimSignal: delivery from inside a cost call, scripted tty)", "file open() proxy"]
